@@ -142,6 +142,16 @@ Theorem C05_reject_iff_infer_rejects :
 Proof. exact reject_iff_infer_rejects. Qed.
 Print Assumptions C05_reject_iff_infer_rejects.
 
+(* wrong-kind arguments: an argument whose kind does not fit its field (a required input given as None or as a list, a bare Var for a
+   variadic field, ...) makes the constructor raise at the call, whatever inference would say; with arguments of the right kinds the
+   constructor IS the inference-driven outcome of the theorems above. *)
+Theorem C05_wrong_kind_raises_at_the_call :
+  forall (E : Type) (infer : smodel -> E + list (string * option oty)) c,
+    (args_ok (s_ins (c_sig c)) (c_ins c) = false -> construct infer c = RaisedOther) /\
+    (args_ok (s_ins (c_sig c)) (c_ins c) = true -> construct infer c = call_outcome infer c).
+Proof. exact wrong_kind_raises. Qed.
+Print Assumptions C05_wrong_kind_raises_at_the_call.
+
 (* what "invented dimensions erased" means *)
 Theorem C05_strip_spec :
   (forall d, strip_dim d = match d with DSym s => if String.prefix unk_prefix s then DUnk else DSym s | _ => d end) /\
